@@ -1,0 +1,15 @@
+//go:build verif
+
+package sqlite
+
+import "database/sql"
+
+// SetDBOpenerForVerification substitutes the function New uses to open the
+// database, so that a verification harness can open the store over a
+// fault-injecting database/sql driver. It returns a function that restores
+// the previous opener. Only compiled with the "verif" build tag.
+func SetDBOpenerForVerification(opener func(driverName, dataSourceName string) (*sql.DB, error)) (restore func()) {
+	prev := dbOpener
+	dbOpener = opener
+	return func() { dbOpener = prev }
+}
